@@ -10,6 +10,8 @@ claimed = {
          "Assumed: url.Parse / URL.Query / Values.Get / strings.Split contracts (arbitrary result, fresh memory, Query lists are non-empty); the frame of NewParams is declared and assumed (flag noframe). Not covered: the content postconditions of NewParams (field lists without duplicates and defaulting, inclusion chains, sorting-rule prefix/totality)."),
  "C10": ("Per-kind comparison semantics (opsem) proved as postconditions of checkStr/Int/Uint/Bool/Time/Bytes/Slice/In for all inputs; checkVal's dispatch proved per dynamic type (30 types + nil); Filter.IsAllowed proved equal to the one-level unfolding of the logical reading (and/or/in/has/comparison) with recursive calls by contract; trichotomy, complementarity and unknown-operator laws as lemmas over those contracts.",
          "Assumed: bytes.Compare is the lexicographic order, sort.Strings sorts in place, time.Equal/Before/After compare instants; the Resource interface contract (typing of Get); partial correctness of the recursion (acyclic trees); filter trees whose comparison leaves are not on to-many relationships (checkSlice sorts in place; its own contract is proved separately)."),
+ "C12": ("Frame obligations proved: Schema.GetType, HasType, Check, Rels (with buildRels and its sort closure), NewURLFromRaw, NewSimpleURL, NewURL, UnmarshalIdentifier and UnmarshalIdentifiers write nothing that existed before the call (every heap and every map, compared below the entry allocation counter); they only allocate. With no write to shared locations there is no pair of conflicting accesses between goroutines running these operations on one schema.",
+         "PARTIAL: NewParams' frame is declared and assumed; resource/document/partial unmarshaling, Type.New (calls the user's NewFunc) and MarshalDocument are not covered. Data-race freedom is the stated meta-argument over the frames (Go memory model), not an explored schedule."),
  "C14": ("Representation invariant schemaWf (unique non-empty type names, per-type attribute/relationship maps keyed by name with valid kinds and non-empty targets, no two types sharing a map) proved to be preserved by AddType, RemoveType, AddAttr, RemoveAttr, AddRel, RemoveRel, AddTwoWayRel and Type.AddAttr/RemoveAttr/AddRel/RemoveRel, with no panic; error returns leave the schema unchanged (deep comparison); removal of something absent changes nothing; HasType/GetType agree with the list; AddTwoWayRel succeeds when types exist and names are free, for either direction and inside one type, and leaves both sides holding the relationship and its inverse. Induction over histories is the invariant preservation.",
          "Assumed: fmt.Errorf/errors.New return non-nil errors; arguments of AddType are well-formed types whose maps are not shared with the schema (domain of the property)."),
  "C15": ("Schema.Check proved, for every schema and every map iteration order, to return an empty list exactly when the schema is coherent (every target type exists and every relationship naming an inverse is declared from its own type and reciprocated by a relationship of the target type that names it back and points back), to never panic and to write nothing that existed before the call (frame obligations); Schema.GetType/HasType agree with the list of types.",
@@ -26,6 +28,15 @@ claimed = {
          "Strings are SMT sequences compared lexicographically (byte order). sort.Slice is assumed to permute in place and to sort with respect to the closure's proved contract; uniqueness of a sorted duplicate-free list under a total order (hence independence of build order) is the standard argument, not machine-checked here."),
 }
 na = {
+ "C01": "needs MarshalResource/UnmarshalResource under contract plus codec inverse laws; the marshal side was not brought under contract in this revision (DESIGN.md §0)",
+ "C02": "needs MarshalDocument/UnmarshalDocument under contract; not done in this revision (DESIGN.md §0)",
+ "C03": "MarshalDocument/MarshalResource (ghost argument of json.Marshal) not brought under contract in this revision (DESIGN.md §0)",
+ "C04": "MarshalResource not brought under contract in this revision (DESIGN.md §0)",
+ "C05": "only Attr.UnmarshalToType and UnmarshalIdentifier(s) are proved; UnmarshalResource/Document/Collection and NewRequest are not, so the property as a whole is not claimed (the two known findings are reported under C06)",
+ "C09": "sortedResources.Less is proved (first-difference order, 194 obligations) but Range itself is not under contract; nothing is claimed",
+ "C11": "depends on the marshal contracts of C03/C04, which were not written in this revision",
+ "C13": "UnmarshalPartialResource has a full contract and invariants, but 20 of its 199 obligations exceed the quick solver budget (cvc5 needs 15-20 s); not claimed rather than claimed with timeouts",
+ "C20": "Check/BuildType/Wrap are driven by package reflect, outside the verifier's subset; the bounded stand-ins planned in DESIGN.md §3.10 were not built",
  "C08": "The law parse(String(u)) = u is a statement about net/url and encoding/json parsing; a contract that could express it would be a hand-written model of those parsers (DESIGN.md §5).",
 }
 checks = []
